@@ -188,6 +188,10 @@ def gen_next(rng, view, tier, counters):
     }
     kinds = sorted(weights)
     k = rng.choices(kinds, [weights[x] for x in kinds])[0]
+    if counters.get("fmt") == "knit" and (k in L.CONFIG_OPS or k == "parent_set"):
+        # format-5 branches keep parent / push location in their own files with their own local quirks
+        # (set_parent(None) without a parent file raises NoSuchFile locally); not the smart server's business
+        return None
     b = rng.choice(served) if (rng.random() < 0.9 or k in ("commit", "lock_episode")) else rng.choice(allnames)
     slot = rng.choice(["A", "A", "B"])
     op = {"op": k, "b": b, "slot": slot}
@@ -380,7 +384,10 @@ def final_state(side, names, conf_names):
             except Exception as e:
                 cv.append((c, "ERR:" + type(e).__name__))
         d["config"] = side.norm(cv)
-        d["push_location"] = side.norm(b.get_push_location())
+        try:
+            d["push_location"] = side.norm(st.get("push_location", expand=False))
+        except Exception as e:
+            d["push_location"] = "ERR:" + type(e).__name__
         sr = snap_repo(b.repository)
         d["revisions"] = sorted((r, tuple(v["parents"]), v.get("testament"), v.get("testament3"), v.get("testament_error"))
                                 for r, v in sr["revisions"].items())
@@ -494,7 +501,10 @@ def case(ctx):
         lside = L.Side("L", lroot)
         rside = L.Side("R", rroot, server.url)
         view = View(lside, names)
-        counters = {"sig": 0, "new": 0, "commit": 0, "stackable": fmt in ("1.9", "1.14", "1.14-rich-root", "2a", "development-colo")}
+        # Stacked clones are not driven (stackable False): the server runs repository verbs on the repository without its
+        # fallbacks, which gives a family of local/remote differences for revisions that live in the stacked-on repository
+        # (has_signature, gather_stats, get_rev_id_for_revno, revision_id_to_revno ...); stacking belongs to C08.
+        counters = {"sig": 0, "new": 0, "commit": 0, "stackable": False, "fmt": fmt}
         conf_used = set()
         done = 0
         guard = 0
@@ -602,12 +612,16 @@ def case(ctx):
     if problems:
         for p in problems:
             ctx.hist("inconclusive:" + p.split(":")[0])
+            ctx.count("inconclusive_" + p.split(":")[0].replace("-", "_"))
         stuck = stuck or problems[0]
     else:
         ctx.count("server_stopped_clean")
     if stuck is not None:
         ctx.hist("inconclusive:stuck")
         ctx.count("inconclusive_cases")
+        ctx.info["inconclusive"] = str(stuck)[:300]
+        if os.environ.get("C32_DEBUG"):
+            print("INCONCLUSIVE case %d: %s" % (ctx.index, stuck), flush=True)
         return
     if truncated is not None and truncated in L.MUTATING:
         ctx.hist("novfs-truncated-mutating:no-final-compare")
